@@ -64,8 +64,38 @@ class Token:
         return f'Token({self.number})'
 
 
+def program_error(kind, message):
+    """The exception a generated step raises: a ProgramError, in a share of the programs one that is ALSO an instance of a
+    builtin type the library itself catches somewhere (KeyError, ValueError, AttributeError, RuntimeError, TypeError)."""
+    return PROGRAM_ERRORS.get(kind, ProgramError)(message)
+
+
 class ProgramError(Exception):
     """Raised by generated step functions for ret = raise."""
+
+
+class ProgramKeyError(ProgramError, KeyError):
+    pass
+
+
+class ProgramValueError(ProgramError, ValueError):
+    pass
+
+
+class ProgramAttributeError(ProgramError, AttributeError):
+    pass
+
+
+class ProgramRuntimeError(ProgramError, RuntimeError):
+    pass
+
+
+class ProgramTypeError(ProgramError, TypeError):
+    pass
+
+
+PROGRAM_ERRORS = {'KeyError': ProgramKeyError, 'ValueError': ProgramValueError, 'AttributeError': ProgramAttributeError,
+                  'RuntimeError': ProgramRuntimeError, 'TypeError': ProgramTypeError}
 
 
 class CallbackError(Exception):
@@ -296,7 +326,7 @@ def _make_ret(proc, world, ret, plumpy):
             return plumpy.Kill()  # the command without any message at all
         return plumpy.Kill(MessageBuilder.kill(ret.get('msg')))
     if kind == 'raise':
-        exc = ProgramError(ret.get('msg', 'boom'))
+        exc = program_error(ret.get('exc'), ret.get('msg', 'boom'))
         world.program_errors.append(exc)
         world.rec('raise', label(proc), ret.get('msg', 'boom'))
         raise exc
@@ -500,7 +530,7 @@ def build_process_class(program, world, plumpy, hooks=True, record_calls=True):
 # Reference model of a process program (what the statement of C13/C05/C08 says should happen)
 
 
-def model_run(program, resume_values=None, max_steps=64):
+def model_run(program, resume_values=None, max_steps=64, repeats=()):
     """Return the expected uninterrupted execution of a program.
 
     ``resume_values[k]`` is the value given to the k-th wait (``None`` entry or missing = resume
@@ -521,6 +551,11 @@ def model_run(program, resume_values=None, max_steps=64):
         step = steps[index]
         trace.append([step_name(index), freeze(args), freeze(kwargs)])
         statuses.append(status)
+        while len(trace) - 1 in repeats:
+            # a checkpoint written while this step's state was being left (the step had returned, its command had not
+            # taken effect yet) was restored: the step is executed once more, then its command is carried out
+            trace.append([step_name(index), freeze(args), freeze(kwargs)])
+            statuses.append(status)
         for group in step.get('effects') or []:
             for eff in group:
                 if eff['e'] == 'out':
@@ -647,6 +682,8 @@ def gen_process_program(rng, cfg=None):
                     ret = {'t': 'kill', 'msg': None, 'raw': True}
             else:
                 ret = {'t': 'raise', 'msg': f'boom{index}'}
+                if rng.random() < 0.4:
+                    ret['exc'] = rng.choice(sorted(PROGRAM_ERRORS))
         steps.append({'async': is_async, 'awaits': awaits, 'effects': groups, 'ret': ret})
     program = {'kind': 'process', 'steps': steps, 'inputs': None}
     if rng.random() < cfg.get('p_custom_waiting', 0.25):
